@@ -437,10 +437,121 @@ func rewrite(fset *token.FileSet, f *ast.File, structs map[string]map[string]boo
 			}
 		}
 	}
+	// *url.URL objects shared between requests (e.g. the redirect URI of a stored pushed request): writes to
+	// RawQuery / Fragment through a local pointer, and String()/Query() reads of the same variable
+	if access {
+		for _, d := range f.Decls {
+			fd, ok := d.(*ast.FuncDecl)
+			if !ok || fd.Body == nil {
+				continue
+			}
+			ue := urlEdits(fd.Body, off)
+			if len(ue) > 0 {
+				needHook = true
+				stats["url"] += len(ue)
+				eds = append(eds, ue...)
+			}
+		}
+	}
 	if needHook {
 		// same line as the package clause: keeps line numbers
 		eds = append(eds, edit{off: off(f.Name.End()), text: `; import verifhook "` + hookImport + `"`})
 	}
+	return eds
+}
+
+var urlFields = map[string]bool{"RawQuery": true, "Fragment": true, "RawFragment": true}
+
+// urlEdits: syntactic rule (no type information): an identifier X that is assigned through X.RawQuery / X.Fragment /
+// X.RawFragment somewhere in the function is taken to be a *url.URL; every such assignment gets a write hook and
+// every simple statement calling X.String() or X.Query() a read hook.
+func urlEdits(body *ast.BlockStmt, off func(token.Pos) int) []edit {
+	vars := map[string]bool{}
+	ast.Inspect(body, func(n ast.Node) bool {
+		as, ok := n.(*ast.AssignStmt)
+		if !ok {
+			return true
+		}
+		for _, l := range as.Lhs {
+			if se, ok := l.(*ast.SelectorExpr); ok && urlFields[se.Sel.Name] {
+				if id, ok := se.X.(*ast.Ident); ok {
+					vars[id.Name] = true
+				}
+			}
+		}
+		return true
+	})
+	if len(vars) == 0 {
+		return nil
+	}
+	var eds []edit
+	handle := func(list []ast.Stmt) {
+		for _, st := range list {
+			acc := map[string]bool{}
+			var order []string
+			note := func(k string, w bool) {
+				if old, ok := acc[k]; ok {
+					acc[k] = old || w
+					return
+				}
+				acc[k] = w
+				order = append(order, k)
+			}
+			var scan ast.Node
+			switch t := st.(type) {
+			case *ast.AssignStmt:
+				for _, l := range t.Lhs {
+					if se, ok := l.(*ast.SelectorExpr); ok && urlFields[se.Sel.Name] {
+						if id, ok := se.X.(*ast.Ident); ok && vars[id.Name] {
+							note(id.Name, true)
+						}
+					}
+				}
+				scan = st
+			case *ast.ExprStmt, *ast.DeclStmt, *ast.ReturnStmt:
+				scan = st
+			case *ast.RangeStmt:
+				scan = t.X
+			}
+			if scan != nil {
+				ast.Inspect(scan, func(n ast.Node) bool {
+					if _, ok := n.(*ast.FuncLit); ok {
+						return false
+					}
+					ce, ok := n.(*ast.CallExpr)
+					if !ok {
+						return true
+					}
+					if se, ok := ce.Fun.(*ast.SelectorExpr); ok && (se.Sel.Name == "String" || se.Sel.Name == "Query") {
+						if id, ok := se.X.(*ast.Ident); ok && vars[id.Name] {
+							note(id.Name, false)
+						}
+					}
+					return true
+				})
+			}
+			if len(order) > 0 {
+				var sb strings.Builder
+				for _, k := range order {
+					fmt.Fprintf(&sb, "verifhook.Access(%s, %q, %v); ", k, "url.URL", acc[k])
+				}
+				eds = append(eds, edit{off: off(st.Pos()), text: sb.String()})
+			}
+		}
+	}
+	ast.Inspect(body, func(n ast.Node) bool {
+		switch t := n.(type) {
+		case *ast.FuncLit:
+			return false
+		case *ast.BlockStmt:
+			handle(t.List)
+		case *ast.CaseClause:
+			handle(t.Body)
+		case *ast.CommClause:
+			handle(t.Body)
+		}
+		return true
+	})
 	return eds
 }
 
